@@ -383,6 +383,13 @@ func propC20HTTP(t *rapid.T) {
 		if r.CType != "" {
 			req.Header.Set("Content-Type", r.CType)
 		}
+		if ctForm := "application/x-www-form-urlencoded"; rapid.IntRange(0, 3).Draw(t, "formReadByMiddleware") == 0 && (r.CType == ctForm || !strings.HasPrefix(r.CType, ctForm)) {
+			// (not for "form; charset=..." types: net/http parses those as forms and consumes the body, the
+			// handler reads them as JSON - a middleware that reads the form there legitimately leaves nothing)
+			// a middleware in front of the handler has already looked at the request's form (an audit wrapper reading
+			// the user name, say): whatever the handler is given, it is the same request
+			_ = req.FormValue("user")
+		}
 		if rapid.IntRange(0, 5).Draw(t, "brokenConnection") == 0 {
 			// the client is gone: writing the response fails. What the request did (or did not do) to the level
 			// stands, and a level change that happens while the response is being written is not undone.
@@ -626,9 +633,33 @@ func c20RejectedPutUndoesNothing(t *testing.T) {
 	}
 }
 
+// c20LongLivedLevel: one AtomicLevel set many millions of times (a level endpoint polled by a controller for years,
+// a test harness flipping levels): the level in force is always exactly the last one set.
+func c20LongLivedLevel(t *testing.T) {
+	al := zap.NewAtomicLevel()
+	levels := []zapcore.Level{zapcore.InfoLevel, zapcore.ErrorLevel, zapcore.DebugLevel, zapcore.PanicLevel, zapcore.WarnLevel}
+	const sets = 1<<24 + 1<<10
+	for i := 0; i < sets; i++ {
+		l := levels[i%len(levels)]
+		al.SetLevel(l)
+		if got := al.Level(); got != l {
+			t.Fatalf("SetLevel #%d: set %v, Level() reports %v", i+1, l, got)
+		}
+	}
+	// and through the endpoint
+	for i, l := range levels {
+		rr := httptest.NewRecorder()
+		al.ServeHTTP(rr, httptest.NewRequest(http.MethodPut, "/", strings.NewReader(fmt.Sprintf(`{"level":%q}`, l.String()))))
+		if rr.Code != 200 || al.Level() != l {
+			t.Fatalf("PUT #%d on a long-lived level: status %d, level %v, want %v", i, rr.Code, al.Level(), l)
+		}
+	}
+}
+
 func TestRegressC20(t *testing.T) {
 	c20AnsweredMeansDone(t)
 	c20RejectedPutUndoesNothing(t)
+	c20LongLivedLevel(t)
 	// non-ASCII look-alikes are not level names
 	for _, s := range []string{"İNFO", "PANİC", "ınfo", "ｉｎｆｏ", " info", "info\n"} {
 		l := zapcore.Level(3)
